@@ -84,6 +84,16 @@ CHECKS = {
             {'name': 'Harness_C16_decode', 'pkg': 'samlsp', 'replay': 'direct', 'must_reach': ['session', 'no-session'], 'opts': {'K': 1}},
         ],
     },
+    'C17': {
+        'level_text': 'one inductive ACS step from an arbitrary cookie jar (the middleware keeps no other state): path exploration + z3 decide that a session is set only when the jar holds the authentic, unexpired, properly named tracking cookie of the request the response answers, that the browser goes only to the tracked URL named by RelayState (then cleared) or the default, and that every other delivery is an error reply without session; tracking lifetime = MaxIssueDelay. Replayed natively through the real middleware with real JWT cookies and a real signed response.',
+        'level_note': 'real samlsp.New wiring, Middleware.ServeACS, CreateSessionFromAssertion, CookieRequestTracker.GetTrackedRequests/GetTrackedRequest/StopTrackingRequest, JWTTrackedRequestCodec, CookieSessionProvider.CreateSession, JWTSessionCodec.New/Encode and golang-jwt ParseWithClaims executed from SSA. Jar: <=2 (quick) / <=3 (thorough) cookies, each an authentic tracking token (fresh or expired), an authentic session token or garbage, under its index name or an arbitrary name. (*ServiceProvider).ParseResponse is replaced by a summary - an assertion iff the (valid, trusted-signed, fresh) response answers one of the IDs handed in - which is exactly what C04 discharges on the real function. JWT serialisation/verification and net/http helpers (SetCookie, Redirect, Error, cookie parsing) are contract stubs. Interleavings of several flows follow from the step because nothing but the jar carries over.',
+        'harnesses': [
+            {'name': 'Harness_C17_acs', 'pkg': 'samlsp', 'replay': 'direct', 'must_reach': ['served', 'refused', 'session-established'],
+             'validate_labels': ['refused', 'session-established'], 'opts': {'summaries': {'(*github.com/crewjam/saml.ServiceProvider).ParseResponse': 'parse-response-answers'}},
+             'quick': {'params': {'jar.max': 2}}, 'thorough': {'params': {'jar.max': 3}}, 'budget_s': {'quick': 600, 'thorough': 3000}},
+            {'name': 'Harness_C17_lifetime', 'pkg': 'samlsp', 'replay': 'direct', 'must_reach': ['wired']},
+        ],
+    },
     'C18': {
         'level_text': 'path exploration + z3 decide that both logout entry points report valid only for a rooted document whose root carries a trusted signature and whose Destination, Issuer, Status and freshness are right, and that such a response is accepted; counterexamples replayed natively on real signed XML.',
         'level_note': 'real ValidateLogoutResponseForm / Redirect, validateLogoutResponse, validateSignature and the helpers of the response flow executed from SSA on a materialised LogoutResponse (arbitrary fields, Issuer nil-able, unsigned / trusted / untrusted signature, or no root element). The library reads time.Now() here: the harness clock and the library clock are assumed to be within one second of each other. base64/flate are contract stubs (inverse of the encoder used by the harness). goxmldsig Validate as in C01.',
